@@ -395,6 +395,21 @@ class NPShim:
             return _elementwise(s_log, a)
         return np.log(a)
 
+    def expm1(self, a):
+        if has_sym(a) or is_obj(a):
+            return _elementwise(lambda x: s_exp(x) - 1, a)
+        return np.expm1(a)
+
+    def log1p(self, a):
+        if has_sym(a) or is_obj(a):
+            return _elementwise(lambda x: s_log(x + 1), a)
+        return np.log1p(a)
+
+    def logaddexp(self, a, b):
+        if has_sym(a) or has_sym(b) or is_obj(a) or is_obj(b):
+            return _elementwise(lambda x, y: s_log(s_exp(x) + s_exp(y)), a, b)
+        return np.logaddexp(a, b)
+
     def power(self, a, b):
         if has_sym(a) or has_sym(b) or is_obj(a) or is_obj(b):
             return _elementwise(s_pow, a, b)
